@@ -13,7 +13,9 @@ CONSTANTS
   IgnoreTimeout = FALSE
   ForcedWaits = FALSE
   LifoQueue = FALSE
-  DrainOnlyAtStop = FALSE
-SPECIFICATION FairSpec
-PROPERTIES C06w_StopAnswered
+  DrainOnlyAtStop = TRUE
+SPECIFICATION Spec
+VIEW View
+INVARIANTS C07_Fifo C07_AllAccounted C01_DrainReleases
+PROPERTIES Steps
 CHECK_DEADLOCK FALSE
